@@ -18,7 +18,7 @@ Theorem C08_hmac_verify_spec : forall sha256 hmac cfg c now r,
   hmac_configured cfg ->
   (fst (verify sha256 hmac cfg c now r) = true <->
    hmac_valid sha256 hmac cfg now r /\
-   fst (admit (trim_space (header_get (h_nonce cfg) (q_headers r)))
+   fst (cache_admit (trim_space (header_get (h_nonce cfg) (q_headers r)))
               (match parse_int (trim_space (header_get (h_ts cfg) (q_headers r))) with Some ts => ts * sec | None => 0 end)
               (h_tol cfg) now c) = true).
 Proof. exact verify_spec. Qed.
